@@ -1315,8 +1315,8 @@ class DocutilsRenderer(RendererProtocol):
                 # note YAML can produce values that are not JSON serializable, e.g. dates
                 try:
                     value = json.dumps(value, default=str)
-                except TypeError:
-                    # e.g. a mapping with a date as key
+                except (TypeError, ValueError):
+                    # e.g. a mapping with a date as key, or an alias to its own anchor
                     pass
             value = str(value)
             body = nodes.paragraph()
